@@ -203,7 +203,7 @@ def _mk_api(key):
             check(nx is (kids[i + 1] if i + 1 < len(kids) else None), sig + '.next_differs_from_walk', (all_, type(node.a).__name__, i))
             check(pv is (kids[i - 1] if i > 0 else None), sig + '.prev_differs_from_walk', (all_, type(node.a).__name__, i))
         # the same walk started at THIS node, in every `on` mode and under type filters: filtering commutes with walking
-        for flt, pred in ((all_, None), (ast.Name, lambda a_: type(a_) is ast.Name), ({ast.Name, ast.Constant, ast.arg}, lambda a_: type(a_) in (ast.Name, ast.Constant, ast.arg))):
+        for flt, pred in (((all_, None),) if all_ is not True else ((all_, None), (ast.Name, lambda a_: type(a_) is ast.Name), ({ast.Name, ast.Constant, ast.arg}, lambda a_: type(a_) in (ast.Name, ast.Constant, ast.arg)))):     # the type filters do not depend on `all_`: once
             for bk in (False, True):
                 full_e = list(node.walk(True if pred else flt, back=bk))
                 full_l = list(node.walk(True if pred else flt, 'leave', back=bk))
